@@ -109,12 +109,10 @@ func c13Case(c *Ctx) {
 	}
 }
 
-func guardedWL(r spg.WLRecipe) (g GenOut) { return runGen(r, nil) }
-
 func c13Malformed(c *Ctx) {
 	type shape struct {
 		name string
-		g    spg.Generator
+		g    interface{}
 	}
 	one, _ := spg.NewWordList([]string{"solo"})
 	three, _ := spg.NewWordList([]string{"a", "b", "c"})
